@@ -15,7 +15,8 @@ TECHNIQUE = ("runtime monitoring: real BallDevice/Playfield/BallController on Ti
              "invariants after every loop iteration, room check at every launch")
 RULE = ("case = generated topology (trough 2-6 switches with pulse/enable coil, or Gottlieb-style entrance-counted "
         "trough with entrance_switch_full_timeout whose filling ball rests on the entrance switch; 1- or 2-ball coil "
-        "launcher; no/coil/mechanical/auto+manual plunger; "
+        "launcher; optional three-device chain trough -> launcher -> staging device -> playfield with requests while "
+        "the launcher's ball is in flight and fall-back/late faults on that hop; no/coil/mechanical/auto+manual plunger; "
         "switch-, entrance- or hold-coil lock; drain device; playfield VUK feeding the plunger; count delays, "
         "timeouts) x physics seed x holds of the balldevice_<src>_ball_eject_attempt queue event (0..10 s, as diverters "
         "do) x unsolicited entries (loose ball rolls back into the plunger lane, lock/VUK shots) while a source waits "
@@ -54,6 +55,9 @@ ASSUMPTIONS = [
     "idle_missing_ball_timeout (+1.5 s) after the last such pulse of that device",
     "no ball enters an entrance-counted device during the 10-80 ms in which an ejected ball is on its way out (an "
     "entrance switch cannot tell such a ball from one that fills the device)",
+    "'no room' also fires when MPF launches towards a device whose own most recent kick is physically falling back "
+    "into it while MPF still has that eject unconfirmed (state ball_left/failed_confirm) and the returning ball fills "
+    "the last slot; a fall back of an eject MPF already confirmed (e.g. by playfield timeout) is not counted",
     "ball search is left at its default (disabled); a loose ball at a rest point sits still (no switch hits)",
 ]
 HORIZONS = {"rest_horizon_virtual_s": 200, "settle_cap_virtual_s": 4000}
